@@ -1339,15 +1339,15 @@ THEOREMS = ["FaxVerif.C12." + t for t in [
     "computes_namesake_counterexample_remquo", "computes_namesake_counterexample_abs_int",
 ]]
 RULE = (
-    "(a) every row of functions_to_replace as it is at run time (row Spec: namesake, header, double, arithmetic type; each row is a non-trivial case); (b) name "
+    "(a) every row of functions_to_replace as it is at run time (row Spec: namesake, header, declared type = C++ result type, arithmetic type; each row is a non-trivial case); (b) name "
     "resolution on every documented name, table key, python builtin, module global of cpp_functions.py and random identifiers (non-trivial: documented, replaced or "
     "refused); (c) scalar query expressions "
     "Select(SelectMany(ds, e -> collection), j -> EXPR) through apply_ast_transformations + write_cpp_files on the three backends: EXPR = every documented "
     "function (arguments by parameter kind: method values, int literal / int method, string constant) standalone and in 10 arithmetic contexts "
     "(*2+1, /2, 1-F, -F, F**2, atan(F), F+cos(eta), (F+int)*float, F/0.5, F+1/2), random expressions of depth <= 3 (quick) / 5 (thorough) over "
     "documented functions, + - * / **, unary + -, int/float constants, double/int/float method values, and expressions outside the documented fragment "
-    "(unknown names, module-less bindings, strings in arithmetic, %, not, @, ~). Inputs inside the listed defect classes (round; remquo; ilogb or abs-of-integers "
-    "under a division) are produced only by the findings stream. A case is non-trivial when it is a documented expression containing at least one "
+    "(unknown names, module-less bindings, strings in arithmetic, %, not, @, ~). Inputs inside the listed defect classes (remquo; abs-of-integers "
+    "under a division) are produced only by the findings stream; the repaired ones (round, ilogb/2, the rounding rows, sin(x)*2) are replayed on every run. A case is non-trivial when it is a documented expression containing at least one "
     "function call; distinct = distinct (backend, expression)."
 )
 TRUSTED_BASE = [
@@ -1370,15 +1370,15 @@ ASSUMPTIONS = [
 ]
 LEVEL_TEXT = (
     "Machine-checked proof (Lean 4). Over the table regenerated from the source on every run: every documented function is a key, no key is assigned twice, every row "
-    "names the C++ function that is the namesake of its python name, pulls in <cmath>, is declared double and usable by most_accurate_type; every documented name "
-    "except round is resolved (through python's eval rule) to a namesake row. For every table, environment and expression of unbounded size: the resolution rule, call "
+    "names the C++ function that is the namesake of its python name, pulls in <cmath>, declares the result type C++ really gives the call (double; int for ilogb) which most_accurate_type knows; every documented name "
+    "is resolved (through python's eval rule) to a namesake row. For every table, environment and expression of unbounded size: the resolution rule, call "
     "emission, inclusion of the headers of every called function, success and arithmetic type of every accepted expression, the exact cause of each refusal; and for "
     "every expression in the stated scope the emitted C++ term denotes, under the C++ typing rules, the same value as the query under python numerics with every function "
-    "read by its documented name. Four counterexample theorems (round, remquo, ilogb/2, abs(int)/2) mark where the full statement is false of the code."
+    "read by its documented name. Two counterexample theorems (remquo, abs(int)/2) mark where the full statement is false of the code."
 )
 LEVEL_NOTE = (
     "Theorem: table facts (all rows), resolver/emission facts (all expressions), namesake semantics for expressions with int/double operands, + - * / **, unary + -, and "
-    "every documented function except round, remquo, ilogb, abs-of-integers (defect exclusions, each with a counterexample theorem and a listed finding). Sampled only: "
+    "every documented function except remquo and abs-of-integers (defect exclusions, each with a counterexample theorem and a listed finding). Sampled only: "
     "float-typed operands, % and not (accepted, judged by the Spec on the implementation), and the numeric values (libm is trusted). The hand model's agreement with the "
     "python is checked by differential execution on three backends, not proved. Trusted: Lean kernel (axioms audited), translator, harness, my reading of <cmath>."
 )
